@@ -1,5 +1,5 @@
 Require Extraction.
 Require Import ExtrOcamlBasic.
 From Coq Require Import ZArith NArith List.
-From VB Require Import Pop.SmDefs.
-Extraction "Pop_model.ml" Nat.pred N.succ Z.succ c_init c_connect c_setState c_compare c_applyBlock c_unapplyBlock count_ref.
+From VB Require Import Pop.SmDefs Pop.SmLaterDefs.
+Extraction "Pop_model.ml" Nat.pred N.succ Z.succ c_init c_connect c_setState c_compare c_applyBlock c_unapplyBlock count_ref full_ids react_seq react.
